@@ -17,6 +17,9 @@ pub broadcast axiom fn ax_mul(a: f64, b: f64) ensures rv(#[trigger] a.mul_spec(b
 pub broadcast axiom fn ax_div_obeys() ensures #[trigger] <f64 as DivSpec>::obeys_div_spec();
 pub broadcast axiom fn ax_div_req(a: f64, b: f64) ensures #[trigger] a.div_req(b);
 pub broadcast axiom fn ax_div(a: f64, b: f64) ensures rv(b) != 0real ==> rv(#[trigger] a.div_spec(b)) * rv(b) == rv(a);
+pub broadcast axiom fn ax_neg_obeys() ensures #[trigger] <f64 as NegSpec>::obeys_neg_spec();
+pub broadcast axiom fn ax_neg_req(a: f64) ensures #[trigger] a.neg_req();
+pub broadcast axiom fn ax_neg(a: f64) ensures rv(#[trigger] a.neg_spec()) == -rv(a);
 pub broadcast axiom fn ax_cmp_obeys() ensures #[trigger] <f64 as PartialOrdSpec>::obeys_partial_cmp_spec();
 pub broadcast axiom fn ax_cmp(a: f64, b: f64)
     ensures #[trigger] a.partial_cmp_spec(&b) == (
@@ -25,9 +28,9 @@ pub broadcast axiom fn ax_cmp(a: f64, b: f64)
         else { Some(core::cmp::Ordering::Greater) });
 #[verifier::allow(broadcast_without_trigger)]
 pub broadcast axiom fn ax_lits()
-    ensures rv(0.0f64) == 0real, rv(1.0f64) == 1real, rv(2.0f64) == 2real, rv(0.5f64) == 1real / 2real, rv(-1.0f64) == -1real;
+    ensures rv(0.0f64) == 0real, rv(1.0f64) == 1real, rv(2.0f64) == 2real, rv(0.5f64) == 1real / 2real, rv(-1.0f64) == -1real, rv(-2.0f64) == -2real;
 
 pub broadcast group float_as_real {
     ax_add_obeys, ax_add_req, ax_add, ax_sub_obeys, ax_sub_req, ax_sub, ax_mul_obeys, ax_mul_req, ax_mul,
-    ax_div_obeys, ax_div_req, ax_div, ax_cmp_obeys, ax_cmp, ax_lits
+    ax_div_obeys, ax_div_req, ax_div, ax_neg_obeys, ax_neg_req, ax_neg, ax_cmp_obeys, ax_cmp, ax_lits
 }
